@@ -25,7 +25,7 @@ ApiScoped(api) == api \in {"scoped_lock", "scoped_read", "scoped_try_lock", "sco
 
 NoCall == [on |-> FALSE, ci |-> 0, api |-> "", c |-> 0, key |-> "", raws |-> FALSE, acqs |-> <<>>,
            enters |-> 0, quiet |-> FALSE, sw |-> <<>>, sr |-> <<>>, incs |-> FALSE, rel |-> "",
-           faulted |-> FALSE, panicked |-> FALSE]
+           faulted |-> FALSE, panicked |-> FALSE, inpanic |-> FALSE, succ |-> FALSE]
 
 MonInit(sid) ==
   LET d == D(sid) IN
@@ -41,6 +41,7 @@ MonInit(sid) ==
     leaked |-> {},
     dead   |-> {},
     should |-> [c \in 1..d.nc |-> FALSE],
+    shsite |-> [c \in 1..d.nc |-> ""],
     may    |-> [c \in 1..d.nc |-> FALSE],
     op     |-> [t \in 1..d.nt |-> <<>>],
     ended  |-> FALSE,
@@ -54,7 +55,12 @@ FreeFor(m, l, md, t) ==      \* may t take l in mode md according to the monitor
   IF md = "w" THEN m.hw[l] = 0 /\ Readers(m, l) = {}
   ELSE m.hw[l] = 0 /\ (D(m.sid).policy = "RP" \/ ~\E u \in DOMAIN m.fin : u # t /\ m.pend[u] = <<l, "w">>)
 Waiting(m, t)    == m.pend[t] # <<>> /\ ~FreeFor(m, m.pend[t][1], m.pend[t][2], t)
-Stuck(m)         == (\E t \in DOMAIN m.fin : ~m.fin[t]) /\ \A t \in DOMAIN m.fin : m.fin[t] \/ Waiting(m, t)
+\* C01 assumes "guards are dropped": a wait for a lock that was leaked on purpose
+\* (mem::forget) or killed by an injected fault is not a deadlock of happylock
+Stuck(m)         == /\ \E t \in DOMAIN m.fin : ~m.fin[t]
+                    /\ \A t \in DOMAIN m.fin : m.fin[t] \/ Waiting(m, t)
+                    /\ \A t \in DOMAIN m.fin : m.pend[t] # <<>> => m.pend[t][1] \notin (m.leaked \cup m.dead)
+                    /\ m.leaked = {}
 
 KindStr(m, c) == LET co == D(m.sid).C[c] IN
                  IF co.kind \in {"pois"} THEN "pois(" \o co.inner \o ")" ELSE co.kind
@@ -155,7 +161,9 @@ OnRel(m0, e) ==
                   ELSE IF m.hw[e.l] # 0 \/ Readers(m, e.l) # {} THEN "foreign-release"
                   ELSE "release-of-unheld"
            p   == IF m.cur[t].faulted THEN "C12" ELSE "C05"
-       IN Flag(m, p, CallSig(m, t, sym))
+           m1  == Flag(m, p, CallSig(m, t, sym))
+       IN \* C17: a non-acquiring operation changed the hold state of a lock
+          IF m.op[t] # <<>> THEN Flag(m1, "C17", m.op[t][1] \o "/release-of-unheld-in-non-acquiring-operation") ELSE m1
 
 OnCall(m, e) ==
   LET t == e.t
@@ -176,14 +184,41 @@ TryExpected(m, t) ==
 TableSame(m, t) == LET cu == m.cur[t] IN
   \A l \in DOMAIN m.hw : m.hw[l] = cu.sw[l] /\ Readers(m, l) = cu.sr[l]
 
-OnRet(m, e) ==
+\* C10: Ok/Err verdicts of the poisonable wrappers reached through collection c
+PoisObs(m, t, c, errs) ==
+  LET ps == D(m.sid).C[c].pseq
+      bad1 == {i \in 1..Len(ps) : i <= Len(errs) /\ m.should[ps[i]] /\ ~errs[i]}
+      bad2 == {i \in 1..Len(ps) : i <= Len(errs) /\ errs[i] /\ ~m.should[ps[i]] /\ ~m.may[ps[i]]}
+      \* the signature names the call site whose panic failed to poison, not the observer
+      m1 == IF bad1 # {}
+            THEN Flag(m, "C10", m.shsite[ps[CHOOSE i \in bad1 : \A j \in bad1 : i <= j]] \o "/not-poisoned-after-panic-in-exclusive-hold")
+            ELSE m
+      m2 == IF bad2 # {} THEN Flag(m1, "C10", CallSig(m1, t, "poisoned-without-panic")) ELSE m1
+      m3 == IF Len(errs) # Len(ps) THEN Flag(m2, "C10", CallSig(m2, t, "poison-verdicts-missing")) ELSE m2
+  IN m3
+
+OnRet(m0, e) ==
   LET t  == e.t
+      succ == e.res \in {"ok", "poisoned"}
+      m  == IF succ THEN [m0 EXCEPT !.cur[t].succ = TRUE] ELSE m0
       cu == m.cur[t]
       md == ApiMode(cu.api)
-      succ == e.res \in {"ok", "poisoned"}
   IN
   IF ~cu.on THEN Flag(m, "ENV", "ret-without-call")
-  ELSE IF e.res = "panicked" THEN [m EXCEPT !.cur[t].panicked = TRUE]
+  ELSE IF e.res = "panicked"
+  THEN \* the panic has unwound through the call: every exclusive hold it had on a poisonable must now show
+       LET ps  == D(m.sid).C[cu.c].pois
+           hit == {c \in ps : md = "w" /\ cu.inpanic} IN
+       [m EXCEPT !.cur[t].panicked = TRUE,
+                 !.should = [c \in DOMAIN m.should |-> m.should[c] \/ c \in hit],
+                 !.shsite = [c \in DOMAIN m.shsite |->
+                              IF c \in hit /\ ~m.should[c]
+                              THEN KindStr(m, cu.c) \o "/" \o cu.api \o (IF c = cu.c THEN "/own-flag" ELSE "/inner-poisonable")
+                              ELSE m.shsite[c]]]
+  ELSE IF e.res \in {"rawpanicked", "libpanic"}
+  THEN LET mk == IF e.res = "libpanic" /\ ~cu.faulted /\ m.dead = {}
+                 THEN Flag(m, "C10", CallSig(m, t, "lock-unusable-without-raw-fault")) ELSE m
+       IN [mk EXCEPT !.cur[t].panicked = TRUE, !.cur[t].faulted = TRUE]
   ELSE
    LET m1 == IF succ /\ ~ApiScoped(cu.api) /\ ~HoldsExactly(m, t, cu.c, md)
              THEN Flag(m, "C04", CallSig(m, t, "held-set-differs-from-leaves")) ELSE m
@@ -197,14 +232,16 @@ OnRet(m, e) ==
              THEN Flag(m4, "C13", CallSig(m4, t, "failed-try-changed-holds")) ELSE m4
        m6 == IF ~ApiTry(cu.api) /\ ~succ
              THEN Flag(m5, "C04", CallSig(m5, t, "blocking-acquisition-reported-failure")) ELSE m5
-   IN m6
+       m7 == IF succ /\ ~ApiScoped(cu.api) THEN PoisObs(m6, t, cu.c, e.errs) ELSE m6
+   IN m7
 
 OnEnter(m, e) ==
   LET t == e.t
       cu == m.cur[t]
       m1 == IF cu.on /\ HoldsExactly(m, t, cu.c, ApiMode(cu.api)) THEN m
             ELSE Flag(m, "C04", CallSig(m, t, "closure-entered-without-all-leaves"))
-  IN [m1 EXCEPT !.cur[t].enters = @ + 1, !.cur[t].incs = TRUE]
+      m2 == IF cu.on THEN PoisObs(m1, t, cu.c, e.errs) ELSE m1
+  IN [m2 EXCEPT !.cur[t].enters = @ + 1, !.cur[t].incs = TRUE]
 
 OnExit(m, e) ==
   LET t == e.t
@@ -231,12 +268,13 @@ OnFin(m, e) ==
       cu == m.cur[t]
       m1 == IF e.keyback /\ HeldBy(m, t) # {}
             THEN Flag(m, IF cu.panicked THEN "C11" ELSE "C03", CallSig(m, t, "key-back-while-holding")) ELSE m
-      m2 == IF cu.rel = "forget" THEN [m1 EXCEPT !.leaked = @ \cup HeldBy(m1, t)] ELSE m1
+      m2 == IF cu.rel = "forget" /\ cu.succ /\ ~cu.panicked THEN [m1 EXCEPT !.leaked = @ \cup HeldBy(m1, t)] ELSE m1
       m3 == IF cu.panicked /\ HeldBy(m2, t) \ m2.leaked # {} /\ ~cu.faulted
             THEN Flag(m2, "C11", CallSig(m2, t, "locks-held-after-panic")) ELSE m2
       m4 == IF cu.faulted /\ (HeldBy(m3, t) \ m3.dead) # {}
             THEN Flag(m3, "C12", CallSig(m3, t, "locks-held-after-raw-panic")) ELSE m3
-  IN [m4 EXCEPT !.cur[t] = NoCall, !.kalive[t] = (e.keyback \/ cu.rel = "forget")]
+  IN [m4 EXCEPT !.cur[t] = NoCall,
+                !.kalive[t] = (e.keyback \/ (cu.rel = "forget" /\ cu.succ /\ ~cu.panicked))]
 
 OnGet(m, e) ==
   LET t == e.t
@@ -244,6 +282,36 @@ OnGet(m, e) ==
             ELSE Flag(m, "C06", IF e.some THEN "second-live-key" ELSE "key-not-obtainable")
       m2 == IF e.some /\ HeldBy(m1, t) \ m1.leaked # {} THEN Flag(m1, "C03", "key-obtained-while-holding") ELSE m1
   IN [m2 EXCEPT !.kalive[t] = TRUE]     \* after a get the thread's key is alive either way
+
+\* user code panics inside the critical section of its current call
+OnPanic(m, e) ==
+  LET t  == e.t
+      cu == m.cur[t]
+      ps == IF cu.c # 0 THEN D(m.sid).C[cu.c].pois ELSE {} IN
+  [m EXCEPT !.cur[t].inpanic = TRUE,
+            !.may = [c \in DOMAIN m.may |-> m.may[c] \/ c \in ps]]
+
+OnProbe(m, e) ==
+  IF e.some = ~m.kalive[e.t] THEN m
+  ELSE Flag(m, "C06", IF e.some THEN "second-live-key" ELSE "key-not-obtainable")
+
+HoldSnap(m, t) == [l \in DOMAIN m.hw |-> <<m.hw[l] = t, m.hr[l][t]>>]
+
+\* C17: non-acquiring operations
+OnOp(m, e) ==
+  LET t == e.t IN
+  IF e.ph = "begin" THEN [m EXCEPT !.op[t] = <<e.name, HoldSnap(m, t)>>]
+  ELSE LET m1 == IF m.op[t] # <<>> /\ m.op[t][2] # HoldSnap(m, t)
+                 THEN Flag(m, "C17", e.name \o "/holds-changed-by-non-acquiring-operation") ELSE m
+           isp == e.name = "is_poisoned"
+           obs == e.res = "true"
+           m2 == IF isp /\ m1.should[e.c] /\ ~obs THEN Flag(m1, "C10", m1.shsite[e.c] \o "/not-poisoned-after-panic-in-exclusive-hold")
+                 ELSE IF isp /\ obs /\ ~m1.should[e.c] /\ ~m1.may[e.c] THEN Flag(m1, "C10", "is_poisoned/poisoned-without-panic")
+                 ELSE m1
+           m3 == IF e.name = "clear_poison" THEN [m2 EXCEPT !.should[e.c] = FALSE, !.may[e.c] = FALSE, !.shsite[e.c] = ""] ELSE m2
+       IN [m3 EXCEPT !.op[t] = <<>>]
+
+OnDeadlock(m, e) == IF Stuck(m) THEN Flag(m, "C01", "deadlock-reported-by-scheduler") ELSE m
 
 OnEnd(m0, e) ==
   LET m == [m0 EXCEPT !.ended = TRUE] IN
@@ -265,7 +333,12 @@ MonStep(m, ev) ==
       [] ev.e = "start"    -> m
       [] ev.e = "done"     -> PostChecks([m EXCEPT !.fin[ev.t] = TRUE])
       [] ev.e = "end"      -> OnEnd(m, ev)
-      [] ev.e = "deadlock" -> Flag(m, "C01", "deadlock-reported-by-scheduler")
+      [] ev.e = "deadlock" -> OnDeadlock(m, ev)
+      [] ev.e = "panic"    -> OnPanic(m, ev)
+      [] ev.e = "probe"    -> OnProbe(m, ev)
+      [] ev.e = "dropkey"  -> [m EXCEPT !.kalive[ev.t] = FALSE]
+      [] ev.e = "forgetkey" -> m
+      [] ev.e = "op"       -> OnOp(m, ev)
       [] OTHER             -> m
 
 (***************************************************************************)
@@ -283,6 +356,7 @@ RuleHits(m, ev) ==
     [] ev.e = "try"   -> (IF ~cu.raws THEN {"C03"} ELSE {}) \cup (IF al = "retry" /\ ~ApiTry(cu.api) THEN {"C09"} ELSE {})
     [] ev.e = "rel"   -> {"C05"} \cup (IF cu.faulted THEN {"C12"} ELSE {})
     [] ev.e = "ret"   -> (IF ev.res # "panicked" THEN {"C04"} ELSE {"C11"})
+                         \cup (IF cu.c # 0 /\ D(m.sid).C[cu.c].pois # {} THEN {"C10"} ELSE {})
                          \cup (IF ApiTry(cu.api) /\ cu.quiet THEN {"C13"} ELSE {})
     [] ev.e = "enter" -> {"C04", "C02"}
     [] ev.e = "exit"  -> {"C02"}
@@ -290,6 +364,9 @@ RuleHits(m, ev) ==
     [] ev.e = "fin"   -> (IF ev.keyback THEN {"C03"} ELSE {}) \cup (IF cu.panicked THEN {"C11"} ELSE {})
                          \cup (IF cu.faulted THEN {"C12"} ELSE {})
     [] ev.e = "get"   -> {"C06"}
+    [] ev.e = "probe" -> {"C06"}
+    [] ev.e = "panic" -> {"C11"} \cup (IF cu.c # 0 /\ D(m.sid).C[cu.c].pois # {} THEN {"C10"} ELSE {})
+    [] ev.e = "op"    -> (IF ev.ph = "end" THEN {"C17"} ELSE {}) \cup (IF ev.name = "is_poisoned" /\ ev.ph = "end" THEN {"C10"} ELSE {})
     [] ev.e = "end"   -> {"C05", "C01"}
     [] OTHER          -> {}
 
